@@ -25,7 +25,7 @@ D_COUNTER = "fresh"
 FAULTS = ["assert", "div", "idx"]
 D_FAULT = "div"
 
-LEAF_KINDS = ("plain", "call", "break", "continue", "return", "fault", "store", "defcall", "tplain")
+LEAF_KINDS = ("plain", "call", "break", "continue", "return", "fault", "store", "defcall", "tplain", "empty")
 
 
 def leaves(in_loop, simple=False):
@@ -33,7 +33,7 @@ def leaves(in_loop, simple=False):
     if in_loop:
         out += [("break",), ("continue",)]
     if not simple:
-        out += [("fault", D_FAULT), ("call",), ("store",), ("defcall",), ("tplain",)]
+        out += [("fault", D_FAULT), ("call",), ("store",), ("defcall",), ("tplain",), ("empty",)]     # empty: a block without any statement (no probes either)
     return out
 
 
@@ -48,9 +48,9 @@ def shapes(depth, in_loop=False):
     for x in subs:
         yield ("if", D_COND, x)
     for x in subs:
-        for l in simple:
+        for l in simple + [("empty",)]:
             yield ("ifelse", D_COND, x, l)
-            if x not in simple:
+            if x not in simple and x != ("empty",):
                 yield ("ifelse", D_COND, l, x)
     chain_leaves = [("plain",)] + ([("continue",)] if in_loop else [("return",)])
     for x in subs:
@@ -195,6 +195,8 @@ def probe(ctx, counters):
 
 
 def block(ctx, item, counters, K, depth, can_return=True):
+    if item[0] == "empty":
+        return []
     if item[0] == "return" and ctx.void and can_return:
         # a value-less `return` is the last statement of its block: the grammar reads whatever follows it as its value
         return [probe(ctx, counters)] + stmts(ctx, item, counters, K, depth, can_return)
@@ -206,6 +208,8 @@ def block(ctx, item, counters, K, depth, can_return=True):
 
 def stmts(ctx, s, counters, K, depth, can_return=True):
     k = s[0]
+    if k == "empty":
+        return []
     if k == "plain":
         return [("assign", "acc", ("bin", "+", var("acc"), ("int", 1)), None, ())]
     if k == "tplain":
